@@ -1,0 +1,9 @@
+//go:build !verif
+
+// Package verifhook marks the few places where a verification harness may
+// hold the background flusher. Without the build tag "verif" Point is an empty
+// function that the compiler removes.
+package verifhook
+
+// Point does nothing in normal builds.
+func Point(site, dir string) {}
